@@ -21,7 +21,7 @@ PROPS["C13"] = dict(
     assumptions=COMMON_ENV + [
         "digest length 32 (SHA-256), round <= 127 (newRBCEncoding panics above by contract)",
         "SHA-256 as an uninterpreted function with congruence and assumed collision freeness (topic derivation)",
-        "ASN.1 stored data / public parameters: not encoded (reflection); outside the claim",
+        "ASN.1 stored data / public parameters: through the opaque structure-preserving codec model (whole-session runs with symbolic party identifiers); encoding/asn1 itself is not executed",
     ],
     outside=["views longer than 4 entries (quick) / 6 (thorough)", "encoding/asn1 itself", "end-to-end sessions with large ids (covered per layer by C06/C07 harnesses with 16-bit symbolic ids)"],
     runs=[
@@ -164,9 +164,9 @@ PROPS["C12"] = dict(
     outside=["more than three API calls per run", "context expiry racing with a still running callback (expiry is modelled at quiescence only)", "sessions with a real backend"],
     runs=[
         dict(dir="threshold", files=["thr_c12.go.txt"], entry="verifH_C12_sign", args=_THR_CONC + ["-preempt", "0"], count=["assert:C12-", "panic:", "deadlock:"], expect_covers=["end"],
-             shards=8, shard_depth=4, bounds={"calls": "Sign, then Sign on the same topic", "outcome of the first": "5 symbolic outcomes", "schedules": "all choices of the next goroutine at blocking points"}),
+             shards=8, shard_depth=4, bounds={"calls": "Sign, then Sign on the same topic", "outcome of the first": "8 symbolic outcomes (ok; either barrier fails; share data unusable; signer fails; either barrier or the signing protocol never completes until the context ends)", "schedules": "all choices of the next goroutine at blocking points"}),
         dict(dir="threshold", files=["thr_c12.go.txt"], entry="verifH_C12_keygen", args=_THR_CONC + ["-preempt", "0", "-det"], count=["assert:C12-", "assert:C11-", "panic:", "deadlock:"],
-             expect_covers=["end"], bounds={"calls": "KeyGen, then KeyGen", "outcome of the first": "ok / first barrier fails / second barrier fails / backend fails / duplicate party", "schedule": "canonical"}),
+             expect_covers=["end"], bounds={"calls": "KeyGen, then KeyGen", "outcome of the first": "ok / first barrier fails / second barrier fails / backend fails / duplicate party / either barrier or the backend protocol never completes until the context ends", "schedule": "canonical"}),
         dict(dir="threshold", files=["thr_c12.go.txt"], entry="verifH_C12_concurrent", args=_THR_CONC + ["-preempt", "0", "-det"], count=["assert:C12-", "panic:", "deadlock:"],
              expect_covers=["end", "second-refused", "second-independent"],
              bounds={"calls": "a Sign waiting at its first barrier; a second Sign on the same or another topic (symbolic); synchroniser traffic for the first; then the first completes; late traffic", "schedule": "canonical"}),
@@ -203,9 +203,8 @@ PROPS["C15"] = dict(
         dict(name="release/bounded/sequential exactly-once", dir="msg", files=["msg_c15.go.txt"], entry="verifH_C15_seq", args=["-realhex", "-preempt", "0"], params={"hK": 4, "hMax": 1}, shards=16, shard_depth=5,
              count=["assert:C15-", "panic:", "deadlock:"], expect_covers=["end"], bounds={"operations": 4, "topics": 3, "senders": 2, "MaxInFlightTopicsBySender": 1, "epoch": "constant (nothing may expire)"},
              tiers={"thorough": {"params": {"hK": 5, "hMax": 2}, "bounds": {"operations": 5, "MaxInFlightTopicsBySender": 2}}}),
-        dict(name="expiry and release after idle periods", dir="msg", files=["msg_c15.go.txt"], entry="verifH_C15_gc", args=["-realhex", "-preempt", "0"], params={"hK": 3, "hMax": 1}, shards=16, shard_depth=5,
-             count=["assert:C15-", "panic:", "deadlock:"], expect_covers=["end"], bounds={"operations": 3, "epoch jumps": "any 0..1000 epochs each, start epoch < 1000", "final": "two Sends on an unrelated topic, each > 2x expiry later"},
-             tiers={"thorough": {"params": {"hK": 4}, "bounds": {"operations": 4}}}),
+        dict(name="expiry and release after idle periods", dir="msg", files=["msg_c15.go.txt"], entry="verifH_C15_gc", args=["-realhex", "-preempt", "0"], params={"hK": 4, "hMax": 1}, shards=16, shard_depth=5,
+             count=["assert:C15-", "assert:C14-", "panic:", "deadlock:"], expect_covers=["end"], bounds={"operations": 4, "epoch jumps": "any 0..1000 epochs each, start epoch < 1000", "final": "two Sends on an unrelated topic, each > 2x expiry later"}),
         dict(name="burst of 103 messages of one sender on one topic", dir="msg", files=["msg_c15.go.txt"], entry="verifH_C15_limit", args=["-realhex", "-preempt", "0", "-unwind", "128"],
              count=["assert:C15-", "panic:", "deadlock:"], expect_covers=["end"], bounds={"messages": 103}),
     ],
@@ -272,7 +271,7 @@ PROPS["C16"] = dict(
     runs=[
         dict(dir="net", files=["net_c16.go.txt", "net_model.go.txt"], entry="verifH_C16_conn", args=_NET_ARGS, replay_args=_NET_REPLAY, params={"hDomMax": 2, "hIdMax": 3}, shards=16, shard_depth=5,
              count=["assert:C16-", "panic:", "deadlock:"], expect_covers=["attributed", "no-attributed-message"],
-             bounds={"registered pairs": 2, "domain": "1..2 bytes", "identity": "2..3 bytes", "binding/signature": "2 bytes", "reads": "whole or byte-wise", "truncation": "5 structural cut points"}),
+             bounds={"registered pairs": 2, "domain": "0..2 bytes (the empty domain is the default one)", "identity": "2..3 bytes", "binding/signature": "2 bytes", "reads": "whole or byte-wise", "truncation": "5 structural cut points"}),
     ],
 )
 PROPS["C16"]["runs"][0]["params"] = {"hDomMax": 2, "hIdMax": 3, "hChunk": 0}
@@ -312,7 +311,7 @@ PROPS["C10"]["runs"] += [
 _BLS_OV = "@MATHLIB_BLS@/zz_verif_model.go=@VERIF@/models/mathlib_overlay.go.txt"
 _PS_OV = "@MATHLIB_PS@/zz_verif_model.go=@VERIF@/models/mathlib002_overlay.go.txt"
 _BLS_ARGS = ["-z3", "z3-new", "-noinit", "-overlay", _BLS_OV, "-redirect", "sort.Slice=verifSortSlice", "-det", "-preempt", "0"]
-_PS_ARGS = ["-z3", "z3-new", "-noinit", "-det", "-preempt", "0", "-overlay", _PS_OV, "-redirect", "github.com/IBM/TSS/mpc/ps.psuedoRandomG2=verifStubG2"]
+_PS_ARGS = ["-z3", "z3-new", "-noinit", "-det", "-preempt", "0", "-overlay", _PS_OV, "-redirect", "github.com/IBM/TSS/mpc/ps.psuedoRandomG2=verifStubG2,sort.Slice=verifSortSlice"]
 _ALG_ENV = COMMON_ENV + [
     "the pairing library is replaced below the mathlib driver interface by an exponent-representation model whose scalars are SMT Reals (field Q): identities with denominators that are products of differences of evaluation points (< 2^16 < r) valid over Q are valid in Z_r",
     "honest random scalars and hash-to-group / hash-to-scalar outputs are non-zero; hash functions are collision free (uninterpreted with congruence)",
@@ -388,7 +387,7 @@ PROPS["C11"] = dict(
         _bls("verifH_C11_silent", ["bls_c11.go.txt"], params={"hCtxEnd": 2}, name="TBLS.KeyGen with a peer that goes silent after its k-th message", count=["assert:C11-", "panic:", "deadlock:"], covers=["end", "returned-error", "returned-ok"],
              bounds={"n": 3, "t": 2, "silent peer": "any of 3", "k": "0..6 (all)", "context ends by": "cancellation or deadline (symbolic)"}),
         dict(name="Scheme.Sign failure paths return an error", dir="threshold", files=["thr_c12.go.txt"], entry="verifH_C12_sign", args=_THR_CONC + ["-preempt", "0"], count=["assert:C11-", "panic:", "deadlock:"], expect_covers=["end"],
-             shards=8, shard_depth=4, bounds={"outcomes": "first barrier fails, second barrier fails, share data unusable, signer fails"}),
+             shards=8, shard_depth=4, bounds={"outcomes": "first barrier fails, second barrier fails, share data unusable, signer fails, either barrier or the signing protocol never completes until the context ends"}),
     ],
 )
 
@@ -499,7 +498,7 @@ PROPS["C19"] = dict(
                 "sources the adapters are built against; all pairs of message types; sender binding for every (claimed key, transport sender) pair",
     pre=["python3", "@VERIF@/gen_c19.py", "ecdsa", "eddsa"],
     assumptions=COMMON_ENV + ["proto.Unmarshal stubbed to yield an Any with a type URL from the library's set; tss.ParseWireMessage stubbed to return a message with an arbitrary embedded sender key (or fail); "
-                              "math/big modelled by a 64-bit side table (NewInt, Cmp, Uint64)", "package initialisers executed (the two tables), curve registration stubbed"],
+                              "math/big modelled by a 64-bit side table (NewInt, Cmp, Uint64) in the classification / sender runs; executed from its pure-Go sources in the Sign-digest and re-Init runs", "package initialisers executed (the two tables), curve registration stubbed"],
     outside=["protobuf and tss-lib internals", "Sign's digest binding (bytes.Equal(sigOut.M, msgToSign.Bytes()) needs the local party and big.Int arithmetic: read, not encoded)", "hashToInt"],
     runs=[
         _c19("ecdsa", "verifH_C19_classify", ["end"], {"message types": "all 14 x 14 pairs"}),
@@ -562,7 +561,7 @@ PROPS["C11"]["runs"].append(
 # rbc.Receiver are only counted soundly among participants, so the filter in front of it is part of that claim)
 def _members(entry, what, extra):
     return dict(name="members only: non-participant traffic during " + what, dir="threshold", files=["thr_c06.go.txt"], entry=entry,
-                args=["-maporder", "-realhex"] + extra, count=["assert:C12-", "assert:C03-", "assert:C06-", "panic:", "deadlock:"], expect_covers=["end"], replay_repeat=40,
+                args=["-maporder", "-realhex"] + extra, count=["assert:C12-", "assert:C03-", "assert:C06-", "panic:", "deadlock:"], expect_covers=["end"], replay_repeat=40, shards=16, shard_depth=6,
                 bounds={"configured nodes": 3, "participants": "u0 (self), u1", "sources": "u2 (member, not participant; may be a replica of u1's party), x (any id outside the session), u1 (control)",
                         "node/party ids": "all 16-bit values", "message": "5 symbolic bytes (payload and acknowledgement encodings)", "entry": "public Scheme.HandleMessage"})
 
@@ -592,8 +591,9 @@ PROPS["C01"]["runs"].append(dict(_C13_BLS))
 # PS twin of the Byzantine-participant DKG harness (C05), also the "DKG handlers then the KeyGen steps that consume what they stored" scenario of C10
 def _ps_byz(count):
     return _ps("verifH_C05_ps_byz", ["ps_c05.go.txt"], params={"qN": 3, "qT": 2, "qL": 1}, name="TPS.KeyGen n=3 t=2, party 3 Byzantine", count=count, covers=["all-aborted", "all-completed"],
-               shards=8, shard_depth=4,
-               bounds={"n": 3, "t": 2, "message length": 1, "Byzantine messages": "share per victim: arbitrary well-formed / wrong number of components / undecodable / withheld / duplicated; commitment matching or arbitrary 32 bytes or withheld; "
+               shards=8, shard_depth=4, extra=["-consthex"],
+               bounds={"n": 3, "t": 2, "message length": 1, "final cross-check": "not modelled in this run (-consthex: the map of aggregated keys has one entry, the DKG never rejects for inconsistent keys; the cross-check itself is the subject of C18's PS detection runs). "
+                       "With it modelled the run needs algebra queries that z3 leaves undecided (7 of 150 000), so it is not registered that way", "Byzantine messages": "share per victim: arbitrary well-formed / wrong number of components / undecodable / withheld / duplicated; commitment matching or arbitrary 32 bytes or withheld; "
                        "revealed key arbitrary well-formed / wrong number of components / undecodable / withheld / duplicated; reveal before or after commitment", "context": "ends when nothing else can happen"})
 
 
@@ -606,4 +606,99 @@ PROPS["C18"]["runs"] += [
         bounds={"n": n, "t": t, "message length": l, "perturbed": "any one party (symbolic), any one key component X / Y_k (symbolic), by any non-zero amount"},
         only=(["quick", "thorough"] if n <= 4 and l == 1 else ["thorough"]))
     for (n, t, l) in [(3, 2, 1), (4, 2, 1), (4, 3, 1), (3, 2, 2), (5, 2, 1), (5, 3, 1), (5, 4, 1), (4, 3, 2)]
+]
+
+# C19 last clause: the adapters' real Sign with math/big executed from its pure-Go sources (build tag math_big_pure_go); only the tss-lib signing party is a stub
+def _c19_sign(scheme, rd):
+    return dict(name="%s adapter: Sign returns a signature only for the requested digest" % scheme, dir="mpc/binance/" + scheme, files=["gen/%s_sign.go.txt" % scheme], entry="verifH_C19_digest",
+                args=["-tags", "math_big_pure_go", "-preempt", "0", "-det", "-noinit", "-redirect", rd], replay_args=["-nativeredirect"], shards=16, shard_depth=6,
+                count=["assert:C19-", "panic:", "deadlock:"], expect_covers=["signature-returned", "refused", "end"],
+                bounds={"digest length": "{0,1,20,31,32,33,48,64} bytes, all byte values", "library outcome": "signs the integer it was given, or reports another signed message (same length or one byte longer, all byte values)",
+                        "math/big": "SetBytes, Rsh, Bytes, BitLen, Lsh executed from the pure-Go sources on symbolic words"})
+
+
+PROPS["C19"]["runs"] += [
+    _c19_sign("ecdsa", "github.com/bnb-chain/tss-lib/v2/ecdsa/signing.NewLocalParty=verifNewSignParty,crypto/elliptic.P256=verifP256S,encoding/asn1.Marshal=verifMarshalS"),
+    _c19_sign("eddsa", "github.com/bnb-chain/tss-lib/v2/eddsa/signing.NewLocalParty=verifNewSignParty,(github.com/decred/dcrd/dcrec/edwards/v2.Signature).Serialize=verifSerializeS"),
+]
+
+# PS twins: C20 (KeyGen || OnMsg) and C11 (KeyGen returns once its context ends, whatever the peer withheld)
+PROPS["C20"]["runs"].append(
+    _ps("verifH_C20_ps_keygen_race", ["ps_c20.go.txt"], name="ps: KeyGen || OnMsg (shares incl. a duplicate, out-of-phase commitment and reveal)", extra=["-race", "-acqonly", "-preempt", "2"], count=["race:", "panic:"], covers=["end"],
+        bounds={"goroutines": "KeyGen, dispatcher, context monitor, deadline", "preemptions": "<= 2", "switch points": "before every Lock/Unlock, channel operation"}, shards=16, shard_depth=4, replay_repeat=2,
+        replay_args=["-nativeredirect", "-instr", "tps.go"]))
+_r = _ps_byz(["assert:C11-", "panic:", "deadlock:"])
+_r["params"] = dict(_r["params"], hCtxEnd=2)
+_r["name"] += " (context ends by cancellation or deadline: KeyGen must return)"
+PROPS["C11"]["runs"].append(_r)
+
+_C13_PS = _ps("verifH_C08_threshold", ["ps_c08.go.txt"], params={"pN": 3, "pT": 2, "pL": 1, "pOrder": 0, "pIds": 1}, name="PS session with arbitrary 16-bit party identifiers (DKG, public parameters, prover, sign, unblind, prove, verify)",
+              count=["assert:C08-", "assert:C13-", "panic:", "deadlock:"], covers=["end"], bounds={"n": 3, "t": 2, "party identifiers": "all ascending triples of 16-bit values", "delivery": "send order"})
+PROPS["C13"]["runs"].append(_C13_PS)
+PROPS["C08"]["runs"].append(dict(_C13_PS))
+
+PROPS["C11"]["runs"].append(
+    dict(name="Scheme.KeyGen failure paths return an error", dir="threshold", files=["thr_c12.go.txt"], entry="verifH_C12_keygen", args=_THR_CONC + ["-preempt", "0", "-det"], count=["assert:C11-", "panic:", "deadlock:"],
+         expect_covers=["end"], bounds={"outcomes": "first barrier fails, second barrier fails, backend fails, duplicate party, either barrier or the backend protocol never completes until the context ends", "schedule": "canonical"}))
+
+# C06 with all three nodes participating (a point-to-point message must reach one node also when the broadcast list has two)
+for _r in list(PROPS["C06"]["runs"]):
+    if _r["entry"] in ("verifH_C06_dkg", "verifH_C06_sign", "verifH_C06_keygen"):
+        _n = dict(_r, params=dict(_r.get("params") or {}, hPart=3), count=list(_r["count"]) + ["assert:C04-"], name=_r["entry"] + " (three participants)", bounds=dict(_r.get("bounds") or {}, participants="all three configured nodes"))
+        if _r["entry"] == "verifH_C06_keygen":
+            _n["expect_covers"] = ["end"]
+        PROPS["C06"]["runs"].append(_n)
+
+# several dispatchers on ONE session's real rbc.Receiver (the serialisation the sequential reasoning of C02/C03 rests on)
+_TWO_DISP = dict(name="threshold: two/three dispatcher goroutines on one session (real rbc.Receiver behind the Scheme's wrappers)", dir="threshold", files=["thr_c20.go.txt"], entry="verifH_C20_two_dispatchers",
+                 args=["-realhex", "-redirect", "context.WithCancel=verifWithCancel", "-race", "-acqonly", "-preempt", "2"], replay_repeat=2, replay_args=["-instr", "threshold.go"],
+                 count=["race:", "panic:", "deadlock:", "assert:C20-"], expect_covers=["end"],
+                 bounds={"goroutines": "2 or 3 dispatchers (symbolic), main", "preemptions": "<= 2", "messages": "peer 2: point-to-point payload or acknowledgement; peer 3: broadcast, optionally a conflicting broadcast of the same round"})
+PROPS["C20"]["runs"].append(_TWO_DISP)
+PROPS["C02"]["runs"].append(dict(_TWO_DISP))
+
+# a peer that connects and goes silent must not hold up the accept loop (C17 "slow peer does not stop traffic between the remaining peers"; C10 "cannot wedge a node ... connection handshake")
+_ACCEPT = dict(name="ServiceConnections: a silent peer does not hold up the accept loop", dir="net", files=["net_c17.go.txt", "net_model.go.txt"], entry="verifH_C17_accept_stalled", args=_NET_ARGS17, replay_args=_NET_REPLAY,
+               count=["assert:C17-", "panic:", "deadlock:"], expect_covers=["end"],
+               bounds={"connections": "a silent one (sends 0..4 bytes of its handshake, then nothing, for ever), then another peer", "listener": "stub net.Listener", "reads": "no deadline (as in the code under test)"})
+PROPS["C17"]["runs"].append(_ACCEPT)
+PROPS["C10"]["runs"].append(dict(_ACCEPT))
+
+# C03 with ALL other participants Byzantine (the two-receiver BMC always has two honest parties, so N-1 forged vouchers about a sender that never
+# transmitted - e.g. a node outside the session - cannot be collected there): the threshold-layer run of C10, whose forward closure fails on an empty placeholder
+for _r in PROPS["C10"]["runs"]:
+    if _r["entry"] == "verifH_C10_handle_rbc":
+        PROPS["C03"]["runs"].append(dict(_r, name="one honest receiver, every other participant Byzantine (real rbc.Receiver behind Scheme.HandleMessage): " + _r.get("name", ""), count=["panic:", "deadlock:", "assert:C10-"]))
+        break
+
+# C05: "shares not on one polynomial ... never complete": the PS DKG's cross-check over every component (the C18 PS detection runs)
+PROPS["C05"]["runs"] += [dict(r) for r in PROPS["C18"]["runs"] if r["entry"] == "verifH_C18_ps_detect" and "quick" in r.get("only_tiers", ["quick"])]
+
+# the session's reliable broadcast is sized by the number of participants (C01 / C04 compose over it: with a smaller N a broadcast whose
+# acknowledgements overtake it is never handed over)
+for _p in ("C01", "C04"):
+    PROPS[_p]["runs"] += [dict(r, name="reliable broadcast sized by the session, acknowledgements transmitted to every other participant: " + r.get("name", r["entry"]), count=["assert:C06-rbc", "assert:C04-", "panic:"]) for r in PROPS["C06"]["runs"]
+                          if r["entry"] in ("verifH_C06_keygen", "verifH_C06_sign") and (r.get("params") or {}).get("hPart") == 3]
+
+# C14 also over garbage collection: a message buffered in the current epoch is handed over at the first Send of its topic whatever GC that Send (or an
+# earlier one on another topic) runs after an idle period (sequential operation sequences with symbolic epoch jumps; the C15 expiry run)
+PROPS["C14"]["runs"] += [dict(r, name="sequential: " + r["name"], count=["assert:C14-", "panic:", "deadlock:"]) for r in PROPS["C15"]["runs"] if r["entry"] == "verifH_C15_gc"]
+PROPS["C15"]["runs"].append(
+    dict(name="an over-limit sender cannot keep a dead topic alive", dir="msg", files=["msg_c15.go.txt"], entry="verifH_C15_keepalive", args=["-realhex", "-preempt", "0", "-unwind", "128"],
+         count=["assert:C15-", "panic:", "deadlock:"], expect_covers=["end"], bounds={"flood": "102 messages (limit 101) then one dropped message every 1..3 epochs (symbolic) for > 3 expiry periods", "expiry": "4 epochs"}))
+
+# C09 "each share combined under its own signer index": genuine shares listed in any order aggregate to a verifying signature (the C01 session run, n=3)
+PROPS["C09"]["runs"] += [dict(r, name="BLS: genuine shares in any listing order: " + r.get("name", ""), count=["assert:C01-subset-verifies", "assert:C01-aggregate", "panic:"])
+                         for r in PROPS["C01"]["runs"] if r["entry"] == "verifH_C01_keygen" and (r.get("params") or {}) == {"kN": 3, "kT": 2, "kOrder": 0}][:1]
+
+def _c19_reinit(scheme, rd):
+    return dict(name="%s adapter: sender binding across consecutive sessions of one instance (re-Init with another member)" % scheme, dir="mpc/binance/" + scheme, files=["gen/%s_sign.go.txt" % scheme], entry="verifH_C19_reinit",
+                args=["-tags", "math_big_pure_go", "-preempt", "0", "-det", "-noinit", "-redirect", rd], replay_args=["-nativeredirect"],
+                count=["assert:C19-", "panic:", "deadlock:"], expect_covers=["end"],
+                bounds={"sessions": "{1,2,3} then {1,2,x}, same threshold", "x": "every 16-bit party number other than 1,2,3", "library": "tss-lib party ids, sorting, peer context and parameters executed from their sources"})
+
+
+PROPS["C19"]["runs"] += [
+    _c19_reinit("ecdsa", "crypto/elliptic.P256=verifP256S"),
+    _c19_reinit("eddsa", "github.com/bnb-chain/tss-lib/v2/tss.Edwards=verifEdwardsS"),
 ]
